@@ -19,6 +19,9 @@ pub enum SOp {
     MergeOwned { dest: u64, src: u64, classes: Option<Vec<u64>>, remove: bool, history: bool },
     MergeExternal { dest: u64, src: TrackDesc, classes: Option<Vec<u64>>, history: bool, noblock: bool },
     Lookup(HL),
+    /// several lookups issued at the same moment from different threads, as
+    /// readers sharing the store behind a read lock do
+    ConcurrentLookups(Vec<HL>),
     FindUsable,
     Clear,
     ShardStats,
@@ -226,6 +229,46 @@ pub fn check_seq(c: &SeqCase) -> CaseResult {
                 let want: Vec<(u64, &'static str)> = model.values().filter(|t| model_lookup(q, t)).map(|t| (t.id, model_status(t))).collect();
                 ensure!(got == want, "lookup-result", "{}", at(&format!("returned {:?}, expected {:?}", got, want)));
             }
+            SOp::ConcurrentLookups(qs) => {
+                let barrier = std::sync::Barrier::new(qs.len() + 1);
+                let store_ref = &store;
+                let (results, usable) = std::thread::scope(|sc| {
+                    let hs: Vec<_> = qs
+                        .iter()
+                        .map(|q| {
+                            let b = &barrier;
+                            sc.spawn(move || {
+                                b.wait();
+                                let mut out = vec![];
+                                // repeated so that the calls really overlap
+                                for _ in 0..4 {
+                                    let mut got: Vec<(u64, &'static str)> = store_ref.lookup(q.clone()).iter().map(|(id, s)| (*id, status_str(s))).collect();
+                                    got.sort();
+                                    out.push(got);
+                                }
+                                out
+                            })
+                        })
+                        .collect();
+                    barrier.wait();
+                    (hs.into_iter().map(|h| h.join()).collect::<Vec<_>>(), ())
+                });
+                let _ = usable;
+                let mut usable: Vec<(u64, &'static str)> = store.find_usable().iter().map(|(id, s)| (*id, status_str(s))).collect();
+                usable.sort();
+                for (q, r) in qs.iter().zip(results) {
+                    let r = match r {
+                        Ok(r) => r,
+                        Err(_) => return Err(Fail::new("lookup-concurrent-panic", at("a lookup issued concurrently with other lookups panicked"))),
+                    };
+                    let want: Vec<(u64, &'static str)> = model.values().filter(|t| model_lookup(q, t)).map(|t| (t.id, model_status(t))).collect();
+                    for got in r {
+                        ensure!(got == want, "lookup-concurrent", "{}", at(&format!("a lookup {:?} issued concurrently with {} others returned {:?}, expected {:?}", q, qs.len() - 1, got, want)));
+                    }
+                }
+                let want: Vec<(u64, &'static str)> = model.values().filter(|t| model_status(t) != "pending").map(|t| (t.id, model_status(t))).collect();
+                ensure!(usable == want, "find-usable-result", "{}", at(&format!("(after concurrent lookups) returned {:?}, expected {:?}", usable, want)));
+            }
             SOp::FindUsable => {
                 let mut got: Vec<(u64, &'static str)> = store.find_usable().iter().map(|(id, s)| (*id, status_str(s))).collect();
                 got.sort();
@@ -313,6 +356,7 @@ fn sop() -> impl Strategy<Value = SOp> {
         3 => (ids(), prop_oneof![3 => Just(100u64), 1 => ids()].prop_flat_map(track_desc), opt_classes(), any::<bool>(), any::<bool>()).prop_map(|(dest, src, classes, history, noblock)| SOp::MergeExternal { dest, src, classes, history, noblock }),
         2 => proptest::collection::vec((ids(), prop_oneof![3 => Just(100u64), 1 => ids()].prop_flat_map(track_desc), opt_classes(), any::<bool>()), 2..5).prop_map(SOp::MergeBurst),
         2 => prop_oneof![Just(HL::All), (-2i64..8).prop_map(HL::ValAtLeast), (0u8..2).prop_map(HL::Group), (0u64..4).prop_map(HL::HasClass), (0usize..3).prop_map(HL::HistoryLonger)].prop_map(SOp::Lookup),
+        1 => proptest::collection::vec(prop_oneof![Just(HL::All), (-2i64..8).prop_map(HL::ValAtLeast), (0u8..2).prop_map(HL::Group), (0u64..4).prop_map(HL::HasClass), (0usize..3).prop_map(HL::HistoryLonger)], 2..5).prop_map(SOp::ConcurrentLookups),
         2 => Just(SOp::FindUsable),
         1 => Just(SOp::Clear),
         1 => Just(SOp::ShardStats),
